@@ -244,6 +244,5 @@ func Name(salt, seed []byte, name string, out []byte) {
 	if !namesOn {
 		return
 	}
-	s := sha256.Sum256(salt)
-	Event("hash", "salt", hex.EncodeToString(s[:8]), "seed", hex.EncodeToString(seed), "name", name, "out", string(out))
+	Event("hash", "salt", hex.EncodeToString(salt), "seed", hex.EncodeToString(seed), "name", name, "out", string(out))
 }
